@@ -143,6 +143,9 @@ def norm(e, lang, kind="Serializer"):
                     cases.append(norm(it[1][1], lang, kind))
                 else:
                     cases.append(norm(it, lang, kind))
+            if kind == "Converter" and lang == "py" and len(a) > 2 and a[2][0] == "name" and a[2][1] in ("True", "False"):
+                # NDJSON: is the value written bare ("simplified") or as {tag: value}?
+                return ("union", nullable, tuple(cases), ("tagged", a[2][1] == "False"))
             return ("union", nullable, tuple(cases))
         if base == "Vector":
             return ("vec", None, norm(a[0], lang, kind))
@@ -184,7 +187,11 @@ def ref_plan(c: Codec, t, home_ns):
     if isinstance(t, U):
         if t.is_optional:
             return ("opt", ref_plan(c, t.cases[0][1], home_ns))
-        return ("union", t.nullable, tuple(ref_plan(c, x, home_ns) for _, x in t.cases))
+        try:
+            tagged = bool(c.union_tagged(t))
+        except Exception:
+            tagged = None         # type parameters: not decided by the reference
+        return ("union", t.nullable, tuple(ref_plan(c, x, home_ns) for _, x in t.cases), ("tagged", tagged))
     if isinstance(t, V):
         return ("vec", t.length, ref_plan(c, t.item, home_ns))
     if isinstance(t, A):
@@ -195,6 +202,27 @@ def ref_plan(c: Codec, t, home_ns):
     if isinstance(t, S):
         return ("stream", ref_plan(c, t.item, home_ns))
     raise TypeError(t)
+
+
+def tagging_view(plan, keep: bool, other=None):
+    """the ("tagged", b) element of union plans only concerns NDJSON; it is dropped for the binary plans and wherever the reference has no opinion"""
+    if not isinstance(plan, tuple):
+        return plan
+    if plan and plan[0] == "union" and len(plan) == 4:
+        inner = tuple(tagging_view(x, keep) for x in plan[:3])
+        if keep and plan[3][1] is not None:
+            return inner + (plan[3],)
+        return inner + ((("tagged", None),) if keep else ())
+    return tuple(tagging_view(x, keep) for x in plan)
+
+
+def unify_unknown_tagging(got, want):
+    """where the reference says ("tagged", None) the backend's value is not compared"""
+    if isinstance(got, tuple) and isinstance(want, tuple) and len(got) == len(want):
+        if want[:1] == ("tagged",) and want[1] is None and got[:1] == ("tagged",):
+            return want
+        return tuple(unify_unknown_tagging(g, w) for g, w in zip(got, want))
+    return got
 
 
 def ndjson_view(plan):
@@ -381,10 +409,12 @@ def run(ctx):
                             got = ("unparsable", str(e)[:80])
                         want = ref_steps[(proto.name, sn)]
                         if kindname == "Converter":
-                            want = ndjson_view(want)
-                            got = ndjson_view(got)
+                            want = tagging_view(ndjson_view(want), True)
+                            got = unify_unknown_tagging(tagging_view(ndjson_view(got), True), want)
                             if want[0] == "stream":
                                 want = want[1]      # NDJSON writes stream items one per line
+                        else:
+                            want = tagging_view(want, False)
                         compare(backend, "%s%s.%s" % (proto.name, role, sn), got, want)
             for q in pkg.closure():
                 sub = src if q is pkg else open(os.path.join(pyd, pk, [e for e in os.listdir(os.path.join(pyd, pk)) if os.path.isdir(os.path.join(pyd, pk, e)) and not e.startswith("_")][0], fn)).read() if q.ns != pkg.ns and len(pkg.closure()) == 2 else None
@@ -403,8 +433,10 @@ def run(ctx):
                         tpn = {("T%d" % (i + 1)): tp.upper() for i, tp in enumerate(d.tparams)}
                         gots = [rename_tp(g, d.tparams) for g in gots]
                         if kindname == "Converter":
-                            want = [ndjson_view(x) for x in want]
-                            gots = [ndjson_view(x) for x in gots]
+                            want = [tagging_view(ndjson_view(x), True) for x in want]
+                            gots = [unify_unknown_tagging(tagging_view(ndjson_view(x), True), w) for x, w in zip(gots, want)] + gots[len(want):]
+                        else:
+                            want = [tagging_view(x, False) for x in want]
                         compare(backend, "record %s" % d.name, gots, want)
         msteps, mrecs = ml_exprs(os.path.join(root, "out/matlab"))
         for proto in pkg.protocols():
@@ -419,7 +451,7 @@ def run(ctx):
                         got = plan_of(msteps[(proto.name, role, gname)], "ml")
                     except Exception as e:
                         got = ("unparsable", str(e)[:80])
-                    compare("matlab-binary", "%s%s.%s" % (proto.name, role, sn), got, ref_steps[(proto.name, sn)])
+                    compare("matlab-binary", "%s%s.%s" % (proto.name, role, sn), got, tagging_view(ref_steps[(proto.name, sn)], False))
         for q in pkg.closure():
             for d in q.defs:
                 if isinstance(d, Rec) and d.name in mrecs:
@@ -430,7 +462,7 @@ def run(ctx):
                         except Exception as e:
                             gots.append(("unparsable", str(e)[:80]))
                     gots = [rename_tp(g, d.tparams) for g in gots]
-                    compare("matlab-binary", "record %s" % d.name, gots, ref_recs[d.name])
+                    compare("matlab-binary", "record %s" % d.name, gots, [tagging_view(x, False) for x in ref_recs[d.name]])
         if ok:
             shutil.rmtree(root, ignore_errors=True)
         return {"package": key, "steps": len(ref_steps), "records": len(ref_recs)}
